@@ -1,7 +1,7 @@
 #!/bin/sh
 # usage: seed_verify.sh <dir with patch.diff demo.py> [pytest paths...]
 # Confirms in a scratch worktree: demo passes clean, fails patched; optional tests pass patched.
-D="$1"; shift
+D="$(cd "$1" && pwd)"; shift
 WT=/tmp/seedverify.$$
 git -C /repo worktree add -q --detach "$WT" HEAD || exit 2
 cd "$WT" || exit 2
